@@ -33,6 +33,8 @@ def programs(tier: str, flavour: str = "full"):
             progs += P(3, 3, min_leaves=3, repeats=False)
             progs += P(2, 3, literals=LITS_QUICK, min_leaves=2, repeats=False)
             progs += P(3, 2, literals=("2",), min_leaves=3, repeats=False, ops="+*")
+            # order-3 copies / transposes: the only programs of the quick tier with 3-level buckets
+            progs += P(1, 6, min_total_order=6)
     else:
         if flavour == "light":
             progs = P(2, 4) + P(3, 3, min_leaves=3, repeats=False) + P(2, 5, min_total_order=5, repeats=False, ops="+*")
@@ -55,7 +57,7 @@ def programs(tier: str, flavour: str = "full"):
 def describe(tier, flavour):
     return {
         "quick/full": "L<=2,S<=4 all shapes incl. repeated tensors; L=3,S<=3; literals {0,2,2.5} with L<=2,S<=3 and "
-                      "{2} with L=3,S<=2",
+                      "{2} with L=3,S<=2; all order-3 copies/transposes (L=1,S=6); int32-overflowing literals",
         "quick/light": "L<=2,S<=3; L=2,S=4 (+,*; no repeats); L=3,S<=2 (+,*); literal 2 with L=2,S<=2",
         "thorough/full": "L<=2,S<=5; L=3,S<=4; L=2,S=6 (+,*); L=4,S<=3 (+,*); literals {0,1,2,2.5,0.0} L<=2,S<=4; "
                          "{2,2.5} L=3,S<=3",
